@@ -69,6 +69,8 @@ def replay(prop, res, f, repo, index, outbase, gen, sp, max_n=3, timeout=240):
         return replay_codec(prop, res, f, repo, outbase, gen, timeout)
     if target.startswith('loadBinaryEdgeList_1_NoLabel_'):
         return replay_loader(prop, res, f, repo, index, outbase, gen, sp, target, timeout)
+    if target.startswith('findAllVertexPredecessors'):
+        return replay_findall(prop, f, repo, outbase, timeout)
     if target.startswith('getSubgraph_2_') or target.startswith('findVertexPredecessors_2_'):
         return replay_free(prop, res, f, repo, index, outbase, gen, sp, target, max_n, timeout)
     info = classify(target)
@@ -265,6 +267,83 @@ int main() {
         '\n'.join(out.strip().split('\n')[-20:]).replace('*/', '* /'), src)
 
 
+def replay_findall(prop, f, repo, outbase, timeout):
+    """findAllVertexPredecessors on the real code through a graph type that counts neighbourhood scans:
+    every simple directed graph with <= 5 vertices (self-loops included), every source.  Oracles are the
+    statements the contract clauses stand for: scans <= V+E (the bound of C19 that bfsall.once implies),
+    every listed predecessor is an in-neighbour listed once, the source has distance 0 and no predecessor,
+    a vertex without predecessor keeps the sentinel, out-of-range sources throw std::out_of_range."""
+    src = '''#include "BaseGraph/directed_graph.hpp"
+#include "BaseGraph/algorithms/paths.hpp"
+#include <algorithm>
+#include <cstdio>
+using namespace BaseGraph;
+static long scans;
+template <class L> struct CountingGraph : LabeledDirectedGraph<L> {
+  using LabeledDirectedGraph<L>::LabeledDirectedGraph;
+  const Successors &getOutNeighbours(VertexIndex v) const { ++scans; return LabeledDirectedGraph<L>::getOutNeighbours(v); }
+};
+int main() {
+  long calls = 0;
+  for (int n = 0; n <= 5; ++n) {
+    int pairs = n * n;
+    for (unsigned long m = 0; m < (1ul << pairs); ++m) {
+      CountingGraph<NoLabel> g(n); long E = 0;
+      for (int i = 0; i < n; ++i) for (int j = 0; j < n; ++j) if (m >> (i * n + j) & 1) { g.addEdge(i, j); ++E; }
+      for (int s = 0; s <= n; ++s) {
+        ++calls; scans = 0; const char *bad = 0; long detail = 0;
+        try {
+          auto r = algorithms::findAllVertexPredecessors(g, s);
+          if (s >= n) bad = "bfsall.reject: no std::out_of_range for a source >= getSize()";
+          else {
+            if (scans > n + E) { bad = "bfsall.once (C19): more neighbourhood scans than V+E"; detail = scans; }
+            if (r.first[s] != 0 || !r.second[s].empty()) bad = "bfsall.source";
+            for (int q = 0; q < n && !bad; ++q) {
+              if (q != s && r.second[q].empty() && r.first[q] != algorithms::BASEGRAPH_VERTEX_MAX) bad = "bfsall.sentinel";
+              for (auto p : r.second[q]) {
+                if (std::count(r.second[q].begin(), r.second[q].end(), p) != 1) bad = "bfsall.pred: predecessor listed twice";
+                if (!g.hasEdge(p, q)) bad = "bfsall.pred: listed predecessor is not an in-neighbour";
+              }
+            }
+          }
+        } catch (std::out_of_range &) { if (s < n) bad = "bfsall.ok: std::out_of_range for a valid source"; }
+        if (bad) {
+          printf("CLAUSE FALSE ON THE REAL CODE: %s\\n  graph: %d vertices, edges", bad, n);
+          for (int i = 0; i < n; ++i) for (int j = 0; j < n; ++j) if (m >> (i * n + j) & 1) printf(" (%d,%d)", i, j);
+          printf("\\n  call: findAllVertexPredecessors(g, %d): %ld scans, V+E = %ld\\n", s, scans, n + E);
+          return 1;
+        }
+      }
+      if (n == 5 && m > 400000) break; /* the first 400000 five-vertex graphs (ascending edge masks) */
+    }
+  }
+  printf("%ld searches replayed\\n", calls);
+  return 0;
+}
+'''
+    cpp, exe = outbase + '.cpp', outbase + '.bin'
+    open(cpp, 'w').write(src)
+    cmd = ['g++', '-std=c++14', '-O2', '-w', '-I', os.path.join(repo, 'include'), cpp, '-o', exe]
+    r = subprocess.run(cmd, stdout=subprocess.PIPE, stderr=subprocess.STDOUT, text=True)
+    header = '// native replay of %s\n// build: %s\n' % (f.get('key'), ' '.join(cmd))
+    if r.returncode != 0:
+        return False, header + '// replay did not compile:\n' + ''.join('// ' + l + '\n' for l in r.stdout.split('\n')[-20:]) + src
+    try:
+        r = subprocess.run([exe], stdout=subprocess.PIPE, stderr=subprocess.STDOUT, text=True, timeout=timeout)
+        out, code = r.stdout, r.returncode
+    except subprocess.TimeoutExpired:
+        out, code = 'TIMEOUT', 0
+    for pth in (exe, cpp):
+        try:
+            os.remove(pth)
+        except OSError:
+            pass
+    found = code != 0
+    return found, header + '// result: %s\n/* output of the replay on the real code:\n%s\n*/\n%s' % (
+        'FAILING INPUT FOUND (exit %d)' % code if found else 'no failing input among all simple digraphs with <= 4 vertices and 400000 with 5',
+        '\n'.join(out.strip().split('\n')[-20:]).replace('*/', '* /'), src)
+
+
 def replay_loader(prop, res, f, repo, index, outbase, gen, sp, target, timeout):
     """loadBinaryEdgeList<Graph, NoLabel>: every record sequence over 3 vertices of length <= 3, written little-endian,
     cut at EVERY byte offset, plus a file that cannot be opened; the contract clauses are evaluated on
@@ -451,7 +530,7 @@ def replay_free_vertex(prop, f, repo, outbase, gen, sp, target, tent, ginfo, par
     pre = [c for c in clauses if c.kind == 'requires' and c.enabled(prop)]
     L = ['#include "native.hpp"', '#include "BaseGraph/algorithms/paths.hpp"', '#include "view.h"',
          'typedef %s G;' % ginfo['graph'], 'typedef %s Abs;' % ginfo['abs'], 'typedef %s L;' % ginfo['cpplabel'],
-         '#define __CPROVER_is_fresh(p, n) 1', 'const bg_size BG_VERTEX_MAX = 4294967295ul; bg_size bg_ghost_scans; VertexIndex bg_scratch_u;',
+         '#define __CPROVER_is_fresh(p, n) 1', 'const bg_size BG_VERTEX_MAX = 4294967295ul; bg_size bg_ghost_scans; VertexIndex bg_scratch_u; VertexIndex bg_ghost_src; bg_size bg_ghost_pushes, bg_ghost_pushes_q;',
          'static const char *bg_failed = 0;',
          'int main() {', '  long calls = 0; int rc = 0;', '  bg_install_handlers();',
          '  enumerate_graphs<G, L>(%d, 1, %s, [&](const G &g0, const std::string &history) {' % (max_n, 'true' if ginfo['undirected'] else 'false'),
